@@ -1,0 +1,65 @@
+//! Verification hooks: read-only snapshot of the pool's private state.
+//!
+//! Only compiled with the `verif-hooks` feature. Nothing here changes behaviour.
+
+use super::service::ConnectionPoolService;
+use super::{Key, PoolableConnection};
+use crate::client::conn::{Protocol, Transport};
+
+/// A read-only copy of the pool's bookkeeping.
+#[derive(Debug, Clone, Default, PartialEq, Eq)]
+pub struct PoolSnapshot {
+    /// Tokens with an in-flight (multiplexed) connection marker, sorted.
+    pub connecting: Vec<usize>,
+    /// Per token (sorted): total queued waiters, and how many of them are still open.
+    pub waiting: Vec<(usize, usize, usize)>,
+    /// Per token (sorted): the idle connections, oldest first, projected by the caller.
+    pub idle: Vec<(usize, Vec<u64>)>,
+}
+
+impl<T, P, S, BIn, K> ConnectionPoolService<T, P, S, BIn, K>
+where
+    T: Transport,
+    P: Protocol<T::IO, BIn>,
+    P::Connection: PoolableConnection<BIn>,
+    BIn: Send + 'static,
+    K: Key,
+{
+    /// Snapshot the pool state, or `None` if this service has no pool.
+    pub fn verif_snapshot<F>(&self, project: F) -> Option<PoolSnapshot>
+    where
+        F: Fn(&P::Connection) -> u64,
+    {
+        let pool = self.pool.as_ref()?;
+        let inner = pool.inner.lock();
+
+        let mut connecting: Vec<usize> = inner.connecting.iter().map(|t| t.verif_raw()).collect();
+        connecting.sort_unstable();
+
+        let mut waiting: Vec<(usize, usize, usize)> = inner
+            .waiting
+            .iter()
+            .map(|(t, q)| {
+                (
+                    t.verif_raw(),
+                    q.len(),
+                    q.iter().filter(|tx| !tx.is_closed()).count(),
+                )
+            })
+            .collect();
+        waiting.sort_unstable();
+
+        let mut idle: Vec<(usize, Vec<u64>)> = inner
+            .idle
+            .iter()
+            .map(|(t, conns)| (t.verif_raw(), conns.verif_iter().map(&project).collect()))
+            .collect();
+        idle.sort();
+
+        Some(PoolSnapshot {
+            connecting,
+            waiting,
+            idle,
+        })
+    }
+}
